@@ -86,8 +86,9 @@ pub enum Op {
     EncryptOtherThread,
     KeygenBurst,
     PqBinding,
+    RaiseTracing,
 }
-pub const N_OPS: usize = 29;
+pub const N_OPS: usize = 30;
 
 /// Base weights per property profile.
 pub fn base_weights(prop: &str) -> Vec<u32> {
@@ -171,7 +172,7 @@ pub fn base_weights(prop: &str) -> Vec<u32> {
         "C08" => {
             set(stat);
             set(refresh);
-            set(&[(Rekey, 4), (ForgedRefresh, 10), (Backup, 1), (Restore, 1), (Reload, 1)]);
+            set(&[(Rekey, 4), (ForgedRefresh, 10), (Backup, 1), (Restore, 1), (Reload, 1), (RaiseTracing, 1)]);
         }
         "C14" => {
             set(stat);
@@ -1033,6 +1034,12 @@ impl Gen {
                 Ev::TamperEnc { slot, op }
             }
             x if x == Op::Hostile as usize => self.hostile(rng, w),
+            x if x == Op::RaiseTracing as usize => {
+                if w.auth.m.tl >= 2 {
+                    return None;
+                }
+                Ev::RaiseTracing
+            }
             x if x == Op::KeygenBurst as usize => {
                 // rare: more than 255 identifiers registered in the master key
                 if !rng.pct(6) {
